@@ -51,3 +51,27 @@ def maybe(kind, value, msg=""):
     if kind == "ok":
         return value
     return _raise(kind, msg)
+
+
+@task(namespace="vfr", version="1")
+def mkfiles(dirname, shape, contents):
+    """Writes contents[i] to <dirname>/f<i>.txt and returns the Files in a container of the given shape."""
+    import os
+
+    from redun import File
+
+    os.makedirs(dirname, exist_ok=True)
+    files = []
+    for i, c in enumerate(contents):
+        f = File(os.path.join(dirname, f"f{i}.txt"))
+        f.write(c)
+        files.append(f)
+    if shape == "bare":
+        return files[0]
+    if shape == "list":
+        return files
+    if shape == "dict":
+        return {"parts": files, "n": len(files)}
+    if shape == "nested":
+        return (len(files), [files[:1], {"rest": tuple(files[1:])}])
+    return [f.path for f in files]
